@@ -1,6 +1,9 @@
 (* Extraction of the front engine (C02): the Includes mirror run through
    Model.Front; third pass: the stages of Model.FrontStages (version check, main
-   components, the desugaring stage = Model.Desugar, the error values of
+   components; fourth pass: the definitions of the files read, the mirrors of
+   Merger::add_definitions and TemplateLibrary::new — the library is built by
+   the model from what the parser yields per file;
+   the desugaring stage = Model.Desugar, the error values of
    generate_cfg = Model.LiftFull + the chain Model.PipelineMirrors) run on what
    the parser yields for the files of the project; and the class table of
    Spec.NoSilentSpec (which mirror produces the report of a failure class, how
